@@ -88,6 +88,8 @@ pub struct Cfg {
     pub beta: Option<f64>,
     /// low-level Radau only: builder option newton_maxiter (None = default, 7)
     pub newton_maxiter: Option<usize>,
+    /// the analytic Jacobian writes only its non-zero entries
+    pub jac_nonzeros_only: bool,
 }
 
 impl Cfg {
@@ -119,6 +121,7 @@ impl Cfg {
             stiff_test: None,
             beta: None,
             newton_maxiter: None,
+            jac_nonzeros_only: false,
         }
     }
     pub fn tol(mut self, rtol: f64, atol: f64) -> Self {
@@ -198,7 +201,7 @@ pub fn run_with(p: &Prob, c: &Cfg, answer: Option<AnswerFn<'_>>, mass: Option<&d
 
 pub fn run_with2(p: &Prob, c: &Cfg, answer: Option<AnswerFn<'_>>, answer_in_jac: Option<AnswerFn<'_>>, mass: Option<&dyn Fn(&mut Matrix)>) -> Run {
     let f = p.rhs();
-    let jacf = |t: f64, y: &[f64], j: &mut Matrix| p.write_jac(t, y, j);
+    let jacf = |t: f64, y: &[f64], j: &mut Matrix| if c.jac_nonzeros_only { p.write_jac_nonzeros(t, y, j) } else { p.write_jac(t, y, j) };
     let mut probe = Probe::new(&f);
     if c.user_jac {
         probe.jacf = Some(&jacf);
@@ -266,7 +269,7 @@ pub fn run_lowlevel(
     set_mass_storage: bool,
 ) -> LowRun {
     let f = p.rhs();
-    let jacf = |t: f64, y: &[f64], j: &mut Matrix| p.write_jac(t, y, j);
+    let jacf = |t: f64, y: &[f64], j: &mut Matrix| if c.jac_nonzeros_only { p.write_jac_nonzeros(t, y, j) } else { p.write_jac(t, y, j) };
     let mut probe = Probe::new(&f);
     if c.user_jac {
         probe.jacf = Some(&jacf);
